@@ -430,7 +430,12 @@ func main() {
 			fmt.Fprintln(os.Stderr, "gofacts:", err)
 			os.Exit(1)
 		}
-		res["translated"] = fns
+		mfns, err := translateMethods(*repo, *out)
+		if err != nil {
+			fmt.Fprintln(os.Stderr, "gofacts:", err)
+			os.Exit(1)
+		}
+		res["translated"] = append(fns, mfns...)
 	}
 	facts := extractFacts(*repo)
 	keys := make([]string, 0, len(facts))
